@@ -1,6 +1,11 @@
 package vm
 
-import "github.com/ethereum/go-ethereum/common"
+import (
+	"bytes"
+	"sort"
+
+	"github.com/ethereum/go-ethereum/common"
+)
 
 type AccountTracker map[common.Address]bool
 
@@ -27,4 +32,16 @@ func (t AccountTracker) Copy() AccountTracker {
 		tracker[k] = v
 	}
 	return tracker
+}
+
+// sortedAddresses returns the tracked addresses in ascending (byte-wise) order.
+func (t AccountTracker) sortedAddresses() []common.Address {
+	addresses := make([]common.Address, 0, len(t))
+	for addr := range t {
+		addresses = append(addresses, addr)
+	}
+	sort.Slice(addresses, func(i, j int) bool {
+		return bytes.Compare(addresses[i].Bytes(), addresses[j].Bytes()) < 0
+	})
+	return addresses
 }
